@@ -13,7 +13,7 @@ TABLE = {
             "Every parton row of the LO tensor of thousands of seeded runs over the EW box, CKM (string and list forms), schemes, projectiles, x classes and requested orders is compared with an independent PDG-formula model; a single wrong sign/charge/propagator/CKM mask is a 1e-1..1 relative effect against a 1e-9 tolerance.",
             "eko basis evaluation trusted; massive-quark (intrinsic) rows and undocumented heavylight heavynesses not judged"),
     "C03": ("exploration", "invariant monitor on every RSL the real code constructs (probe on RSL.__init__): loc(x)-loc(x0) = -int sing, finiteness, x-independent Mellin moments", "§2 C03",
-            "All distribution objects constructed while every partonic-channel class and every splitting label is driven (nf 3..6, every mass ratio once through Q2 and once through the mass) are checked on an x grid by numerical integration of their singular part.",
+            "All distribution objects constructed while every partonic-channel class and every splitting label is driven (nf 3..6, mass ratios Q2/m2 from 0.03 to 1e6, each once through Q2 and once through the mass) are checked on an x grid by numerical integration of their singular part; every part asked again with the same arguments must return the same number.",
             "scipy.quad trusted; parametrisation accuracy 1e-4 relative"),
     "C04": ("exploration", "reference-model monitor: sum rules (Adler, GLS/Bjorken) and textbook NLO closed forms against the RSLs returned by the real classes", "§2 C04",
             "Moments and pointwise NLO values of the real light coefficient-function objects are compared with exact constants / closed forms written independently.",
@@ -22,7 +22,7 @@ TABLE = {
             "All scale-variation keys of the runs explored are recomputed from the central-scale per-kernel vectors, beta coefficients in closed form and independently convolved splitting matrices; the four switch settings are compared bit for bit.",
             "ekore anomalous dimensions trusted for the kernel-validity part"),
     "C06": ("exploration", "probe on Combiner + public nf observables vs exact-rational threshold model; threshold metamorphic pairs", "§2 C06",
-            "nf used by the code (probe) and visible in the output (active rows, beta0 in the muR term) is compared with an exact-rational count at, one ulp below and above every matching scale and at random Q2, all schemes; rows of inactive flavours must vanish in every heavyness/order; one run spanning several nf regions must agree with stand-alone runs; ZM-VFNS cards with different thresholds but equal nf must be bit-identical.",
+            "nf used by the code (probe) and visible in the output (active rows, beta0 in the muR term) is compared with an exact-rational count at, one ulp below and above every matching scale and at random Q2, all schemes; rows of inactive flavours must vanish in every heavyness/order; one run spanning several nf regions must agree with stand-alone runs; the gluon row of a massless flavour-tagged observable must be the tagged quark's charge share of the total's; ZM-VFNS cards with different thresholds but equal nf must be bit-identical.",
             "thresholds generated sorted and with exactly representable products"),
     "C07": ("exploration", "metamorphic relation monitor between observables/runs (additivity), entrywise", "§2 C07",
             "The four additive partitions are checked entry by entry for every order key on seeded cells; re-association noise is 1e-16, tolerance 1e-12.",
@@ -37,7 +37,7 @@ TABLE = {
             "TMC=1,2,3 operators are compared with Schienbein et al./Accardi-Melnitchouk formulas assembled from TMC=0 operators observed at xi and at the grid nodes, with independently integrated kernel weights; continuity in M and rejection outside the grid.",
             "documented discretisation F(u)=sum_j F(x_j)p_j(u); eko basis trusted"),
     "C11": ("exploration", "reference-model monitor (documented N, y+, y-, yL) on XS and SF operators of the same run", "§2 C11",
-            "Every order key of every XS result is compared with the documented linear combination of the SF results of the same run; all ten kinds, projectiles, heavynesses, TMC, y classes.",
+            "Every order key of every XS result is compared with the documented linear combination of the SF results of the same run; all ten kinds, projectiles, heavynesses, TMC, y classes; repeated evaluations of the same kind and point inside one run.",
             "documentation formulas; XSFPFCC normalisation derived from XSCHORUSCC (doc slip recorded in DESIGN)"),
     "C12": ("exploration", "metamorphic relation monitor between proton and target runs (isospin rotation), entrywise; named targets bitwise vs explicit (Z,A)", "§2 C12",
             "Pairs of runs differing only in TargetDIS are compared for every order key; anchors cover the asymptotic schemes where several kernels share weights.",
@@ -46,11 +46,11 @@ TABLE = {
             "Pairs/quadruples of runs are compared entrywise or bit for bit on seeded cells over kinds, schemes, orders, EW parameters and arbitrary CKM.",
             "MZ=MW=1e12 realises decoupling"),
     "C14": ("exploration", "history monitor: many request histories against the same configuration, bit-for-bit, with cache-state probes and injected aborts", "§2 C14",
-            "Each base request is replayed inside permuted/extended/reduced/repeated/aborted/scribbled histories and after runners on other grids; probes count cache hits, misses and drops so that histories that never touched a cache do not count; every base request is also recomputed in a second set of processes (other order and partition; twin grid, same nodes in the other interpolation mode/degree and another NfFF served first) and compared bit for bit.",
+            "Each base request is replayed inside permuted/extended/reduced/repeated/aborted/scribbled histories, with points spelt with their mapping keys in the other order, and after runners on other grids; probes count cache hits, misses and drops so that histories that never touched a cache do not count; every base request is also recomputed in a second set of processes (other order and partition; twin grid, same nodes in the other interpolation mode/degree and another NfFF served first) and compared bit for bit.",
             "single-threaded program: histories are sequences, not interleavings"),
     "C15": ("exploration", "round-trip monitor over dump/load chains of real runner outputs, field-by-field and through predictions", "§2 C15",
             "tar and YAML chains (three cycles, crossed) on outputs with SF/XS mixes, SV keys, TMC, empty and None observables; everything compared with array_equal; a second output of the same shape written over the same tar/YAML path must be what is read back.",
-            "cards restricted to plain YAML types"),
+            "cards made of plain YAML types or numpy arrays/scalars (what the runner accepts); archives with and without run cards"),
     "C16": ("exploration", "outcome classifier over the full configuration lattice (finite / explicit rejection / internal failure), incl. dead-worker detection", "§2 C16",
             "The kind x heavyness x process x scheme x PTO lattice is enumerated (thorough: exhaustively, other factors by covering design) and every run classified from its result or traceback; out-of-domain kinematics must be rejected explicitly.",
             "an exception counts as explicit rejection iff its innermost frame is a raise statement in yadism or a dependency's deliberate ValueError/NotImplementedError"),
